@@ -103,7 +103,7 @@ def run(check: Check) -> None:
         "flags3": [{"SHARD": f, "N": (8 if thorough else 1), "M": (8 if thorough else 7)} for f in range(8)],
         "edit1": list(range(20 if thorough else 10)),
         "pyfrag": list(range(25)) if thorough else [0, 2, 3, 4, 12, 17, 18, 24],
-        "flag_switch": ([{"SHARD": f2, "F1": f1, "WN": 4, "M2": 7} for f2 in range(8) for f1 in range(8)] if thorough
+        "flag_switch": ([{"SHARD": f2, "F1": f1, "WN": 3, "M2": 5} for f2 in range(8) for f1 in (0, 3, 5, 7)] if thorough
                         else [{"SHARD": f2, "F1": f1, "WN": 2, "M2": 4} for f2, f1 in ((0, 7), (3, 0), (7, 0), (5, 2))]),
     }
     if thorough:
@@ -121,9 +121,9 @@ def run(check: Check) -> None:
         except Exception:
             return f"{fname}{call}"
 
-    runner.run_module(check, "ch_c14", fns, pct=(900 if thorough else 110), ppt=20, group="parse-or-reject", keyer=keyer)
+    runner.run_module(check, "ch_c14", fns, pct=(600 if thorough else 110), ppt=20, group="parse-or-reject", keyer=keyer)
     if thorough:
         shards = [{"SEED": sd, "SHARD": p1} for sd in range(20) for p1 in range(7)]
-        runner.run_module(check, "ch_c14", {"edit2": shards}, pct=900, ppt=20, group="parse-or-reject", keyer=keyer, twins=False)
+        runner.run_module(check, "ch_c14", {"edit2": shards}, pct=600, ppt=20, group="parse-or-reject", keyer=keyer, twins=False)
     check.sample({"harness": "err3", "example_path": "'( a ]' -> FormulaSyntaxError (allowed)"})
     check.sample({"harness": "tokenizer_total", "input": "s: symbolic str over all of Unicode, len <= N"})
